@@ -32,7 +32,7 @@ LEVEL_NOTE = "truncation points are sampled (10 per dump incl. all header bounda
 def runs(tier, seed):
     if tier == "quick":
         return [Run("persist", cases=20, params={"trunc": 10, "flips": 8}, timeout=3000)]
-    return [Run("persist", cases=1000, params={"trunc": 12, "flips": 10}, timeout=16000)]
+    return [Run("persist", cases=300, params={"trunc": 12, "flips": 10}, timeout=16000)]  # bounded to <= 15 min idle (~25 s CPU per dump with 23 trials)
 
 
 def check(rec, st):
